@@ -161,6 +161,8 @@ def make(interp):
     jax = {"vmap": B(vmap, "vmap"), "pmap": B(pmap, "pmap"), "jit": B(jit, "jit"), "numpy": jnp,
            "lax": {"scan": B(scan, "scan")},
            "devices": B(lambda: SArr((interp.env_device_count,), lambda idx: "device")),
+           # placement only: values are unchanged (assumed contract; real device/sharding behaviour is exercised by the multi-device harness)
+           "device_get": B(lambda x: x, "device_get"), "device_put": B(lambda x, device=None, **k: x, "device_put"),
            "config": {"update": B(lambda k, v: interp.ghost.__setitem__(k, v))},
            "Array": "Array", "random": random_ns}
     class Logger:
